@@ -1,5 +1,10 @@
 package props
 
+import (
+	"fmt"
+	"strings"
+)
+
 // Shared corpus of multi-feature compose scenarios (used by C02, C09, C19, C20 …).
 
 const corpusRich = `
@@ -782,6 +787,26 @@ services:
       K3: "${UNSET+3}"
 `
 
+const corpusSymlinks = `
+services:
+  app:
+    image: app
+    build:
+      context: ./one/src
+    env_file: [./envlink.env]
+    volumes:
+      - ./chain/src:/chain
+      - {type: bind, source: ./outer/inner/src, target: /nested}
+    develop:
+      watch:
+        - {action: sync, path: ./plain/src, target: /plain}
+        - {action: sync, path: ./one/src, target: /one}
+        - {action: sync, path: ./chain/src, target: /chain}
+        - {action: sync, path: ./outer/inner/src, target: /nested}
+        - {action: rebuild, path: ./deep/src}
+        - {action: rebuild, path: ./one/not-there-yet}
+`
+
 const corpusInvalidSchema = `
 services:
   bad: {image: x, ports: {a: b}}
@@ -797,6 +822,81 @@ services:
   a: {image: a, depends_on: [b]}
   b: {image: b, depends_on: [a]}
 `
+
+// corpusWide: collections beyond the sizes at which library algorithms change behaviour (sort.Slice is an insertion
+// sort up to 12 elements), with entries that compare equal under a partial key (two addresses of one host, two
+// protocols of one port, two mounts of one source).
+func corpusWide() string {
+	var sb strings.Builder
+	sb.WriteString("services:\n  wide:\n    image: wide\n    extra_hosts:\n")
+	for i := 0; i < 9; i++ {
+		fmt.Fprintf(&sb, "      - \"host%d=10.0.0.%d\"\n      - \"host%d=fd00::%d\"\n", i, i+1, i, i+1)
+	}
+	sb.WriteString("    build:\n      context: .\n      extra_hosts:\n")
+	for i := 0; i < 7; i++ {
+		fmt.Fprintf(&sb, "        bh%d: [\"10.1.0.%d\", \"fd01::%d\"]\n", i, i+1, i+1)
+	}
+	sb.WriteString("      args:\n")
+	for i := 0; i < 14; i++ {
+		fmt.Fprintf(&sb, "        ARG%02d: \"a%d\"\n", i, i)
+	}
+	sb.WriteString("    environment:\n")
+	for i := 0; i < 16; i++ {
+		fmt.Fprintf(&sb, "      - ENV%02d=v%d\n", 15-i, i)
+	}
+	sb.WriteString("    labels:\n")
+	for i := 0; i < 16; i++ {
+		fmt.Fprintf(&sb, "      lab.%02d: \"l%d\"\n", (i*7)%16, i)
+	}
+	sb.WriteString("    ports:\n")
+	for i := 0; i < 7; i++ {
+		fmt.Fprintf(&sb, "      - \"%d:80%d/tcp\"\n      - \"%d:80%d/udp\"\n", 9000+i, i, 9000+i, i)
+	}
+	sb.WriteString("    volumes:\n")
+	for i := 0; i < 7; i++ {
+		fmt.Fprintf(&sb, "      - data%d:/mnt/a%d\n      - data%d:/mnt/b%d:ro\n", i, i, i, i)
+	}
+	sb.WriteString("    networks:\n")
+	for i := 0; i < 14; i++ {
+		fmt.Fprintf(&sb, "      net%02d: {aliases: [w%d, w%db]}\n", (i*5)%14, i, i)
+	}
+	sb.WriteString("    depends_on:\n")
+	for i := 0; i < 14; i++ {
+		fmt.Fprintf(&sb, "      - dep%02d\n", (i*3)%14)
+	}
+	sb.WriteString("    dns: [")
+	for i := 0; i < 14; i++ {
+		fmt.Fprintf(&sb, "10.2.0.%d, ", 14-i)
+	}
+	sb.WriteString("10.2.0.99]\n    cap_add: [")
+	for i := 0; i < 14; i++ {
+		fmt.Fprintf(&sb, "CAP_%c, ", 'N'-i)
+	}
+	sb.WriteString("CAP_Z]\n    sysctls:\n")
+	for i := 0; i < 14; i++ {
+		fmt.Fprintf(&sb, "      net.x%02d: %d\n", (i*9)%14, i)
+	}
+	sb.WriteString("    secrets:\n")
+	for i := 0; i < 13; i++ {
+		fmt.Fprintf(&sb, "      - sec%02d\n", (i*4)%13)
+	}
+	for i := 0; i < 14; i++ {
+		fmt.Fprintf(&sb, "  dep%02d:\n    image: dep\n    network_mode: none\n", i)
+	}
+	sb.WriteString("networks:\n")
+	for i := 0; i < 14; i++ {
+		fmt.Fprintf(&sb, "  net%02d: {}\n", i)
+	}
+	sb.WriteString("volumes:\n")
+	for i := 0; i < 7; i++ {
+		fmt.Fprintf(&sb, "  data%d: {}\n", i)
+	}
+	sb.WriteString("secrets:\n")
+	for i := 0; i < 13; i++ {
+		fmt.Fprintf(&sb, "  sec%02d: {file: ./s}\n", i)
+	}
+	return sb.String()
+}
 
 // CorpusScns returns the named corpus scenarios.
 func CorpusScns() map[string]*Scn {
@@ -831,14 +931,23 @@ func CorpusScns() map[string]*Scn {
 		"env-chain":     {Files: files("compose.yaml", corpusEnvChain, "a.env", "HOST=host-a\n", "b.env", "HOST=host-b\n", "shared.env", "URL=http://${HOST}/\nPLAIN=p\n"), Main: []string{"compose.yaml"}},
 		"restated":      {Files: files("compose.yaml", corpusRestated, "s", "sec", "e.env", "E=1\n"), Main: []string{"compose.yaml"}},
 		"anchor-tags":   {Files: files("compose.yaml", corpusAnchorTagsBase, "over.yaml", corpusAnchorTagsOver), Main: []string{"compose.yaml", "over.yaml"}},
-		"empties":       {Files: files("compose.yaml", corpusEmpties), Main: []string{"compose.yaml"}},
-		"legacy":        {Files: files("compose.yaml", corpusLegacy), Main: []string{"compose.yaml"}},
-		"operators":     {Files: files("compose.yaml", corpusOperators), Main: []string{"compose.yaml"}, Env: map[string]string{"SET": "set", "EMPTY": ""}},
-		"profiles":      {Files: files("compose.yaml", corpusProfiles), Main: []string{"compose.yaml"}},
-		"version":       {Files: files("compose.yaml", corpusVersion), Main: []string{"compose.yaml"}},
-		"bad-schema":    {Files: files("compose.yaml", corpusInvalidSchema), Main: []string{"compose.yaml"}},
-		"bad-consist":   {Files: files("compose.yaml", corpusInvalidConsistency), Main: []string{"compose.yaml"}},
-		"bad-cycle":     {Files: files("compose.yaml", corpusInvalidCycle), Main: []string{"compose.yaml"}},
-		"missing-file":  {Files: files("compose.yaml", corpusExtendsMain), Main: []string{"compose.yaml"}},
+		// local paths that run through symbolic links: one link, a link to a link, a second link below the first one,
+		// a link whose target lies below another link, a link next to plain directories
+		"symlinks": {Files: files("compose.yaml", corpusSymlinks,
+			"real/src/", "", "one", SymlinkTo+"real",
+			"mid", SymlinkTo+"real", "chain", SymlinkTo+"mid",
+			"realo/", "", "reali/src/", "", "outer", SymlinkTo+"realo", "realo/inner", SymlinkTo+"../reali",
+			"r2/real2/src/", "", "l2", SymlinkTo+"r2", "deep", SymlinkTo+"l2/real2",
+			"plain/src/", "", "e.env", "E=1\n", "envlink.env", SymlinkTo+"e.env"), Main: []string{"compose.yaml"}},
+		"wide":         {Files: files("compose.yaml", corpusWide(), "s", "sec"), Main: []string{"compose.yaml"}},
+		"empties":      {Files: files("compose.yaml", corpusEmpties), Main: []string{"compose.yaml"}},
+		"legacy":       {Files: files("compose.yaml", corpusLegacy), Main: []string{"compose.yaml"}},
+		"operators":    {Files: files("compose.yaml", corpusOperators), Main: []string{"compose.yaml"}, Env: map[string]string{"SET": "set", "EMPTY": ""}},
+		"profiles":     {Files: files("compose.yaml", corpusProfiles), Main: []string{"compose.yaml"}},
+		"version":      {Files: files("compose.yaml", corpusVersion), Main: []string{"compose.yaml"}},
+		"bad-schema":   {Files: files("compose.yaml", corpusInvalidSchema), Main: []string{"compose.yaml"}},
+		"bad-consist":  {Files: files("compose.yaml", corpusInvalidConsistency), Main: []string{"compose.yaml"}},
+		"bad-cycle":    {Files: files("compose.yaml", corpusInvalidCycle), Main: []string{"compose.yaml"}},
+		"missing-file": {Files: files("compose.yaml", corpusExtendsMain), Main: []string{"compose.yaml"}},
 	}
 }
